@@ -27,6 +27,9 @@ func checkC19(w *World, r *Report) {
 	checkC19Inherit(w, r)
 	checkScrubRule(w, r, analyseDispatch(w), "C19.6")
 	checkCloneWithCarries(w, r, "C19.7", "route")
+	// a route's middleware list must be its own: an append onto the router-wide slice's spare capacity hands one route the
+	// middleware option of another (= C13.1)
+	checkAppendAliasing(w, r, "C19.8")
 }
 
 // objectOf: the struct pointer a field address belongs to, resolved through spilled option parameters.
@@ -431,37 +434,65 @@ func checkC19Inherit(w *World, r *Report) {
 	want := map[string]string{"clientip": "Router.clientip", "redirectTrailingSlash": "Router.redirectTrailingSlash", "ignoreTrailingSlash": "Router.ignoreTrailingSlash", "mws": "Router.mws", "psLen": "parseRoute#0", "hostSplit": "parseRoute#1", "pattern": "param:pattern"}
 	got := map[string]string{}
 	before := map[string]bool{}
+	// the Route may be built by a constructor helper of the module called before the option loop (rte := fox.routeDefaults()):
+	// its stores into the Route it allocates count as NewRoute's
+	type scanFn struct {
+		fn     *ssa.Function
+		before bool
+	}
+	scans := []scanFn{{nr, false}}
 	eachInstr(nr, func(in ssa.Instruction) {
-		st, ok := in.(*ssa.Store)
-		if !ok {
+		c, ok := in.(*ssa.Call)
+		if !ok || c.Call.StaticCallee() == nil || !w.InModule(c.Call.StaticCallee()) || c.Call.StaticCallee().Blocks == nil || c.Call.StaticCallee() == parse {
 			return
 		}
-		base, f, ok := fieldOfAddr(st.Addr)
-		if !ok || namedOf(base.Type()) != route {
-			return
+		if pt, ok := c.Type().(*types.Pointer); ok && namedOf(pt.Elem()) == route {
+			scans = append(scans, scanFn{c.Call.StaticCallee(), firstOpt == nil || !instrReachableFrom(firstOpt, c)})
 		}
-		if _, wanted := want[f.Name()]; !wanted {
-			return
-		}
-		v := st.Val
-		if sl, ok := v.(*ssa.Slice); ok {
-			v = sl.X
-		}
-		desc := valStr(v)
-		if _, lf, isLoad := loadedField(v); isLoad {
-			desc = w.FieldOwner(lf)
-		}
-		if ex, ok := v.(*ssa.Extract); ok {
-			if c, ok := ex.Tuple.(*ssa.Call); ok && c.Call.StaticCallee() == parse {
-				desc = fmt.Sprintf("parseRoute#%d", ex.Index)
-			}
-		}
-		if p, ok := v.(*ssa.Parameter); ok {
-			desc = "param:" + p.Name()
-		}
-		got[f.Name()] = desc
-		before[f.Name()] = firstOpt == nil || !instrReachableFrom(firstOpt, st)
 	})
+	for _, sc := range scans {
+		sc := sc
+		eachInstr(sc.fn, func(in ssa.Instruction) {
+			st, ok := in.(*ssa.Store)
+			if !ok {
+				return
+			}
+			base, f, ok := fieldOfAddr(st.Addr)
+			if !ok || namedOf(base.Type()) != route {
+				return
+			}
+			if _, wanted := want[f.Name()]; !wanted {
+				return
+			}
+			if sc.fn != nr {
+				if a, isAlloc := seeThrough(base).(*ssa.Alloc); !isAlloc || a.Parent() != sc.fn {
+					return
+				}
+			}
+			v := st.Val
+			if sl, ok := v.(*ssa.Slice); ok {
+				v = sl.X
+			}
+			desc := valStr(v)
+			if _, lf, isLoad := loadedField(v); isLoad {
+				desc = w.FieldOwner(lf)
+			}
+			if ex, ok := v.(*ssa.Extract); ok {
+				if c, ok := ex.Tuple.(*ssa.Call); ok && c.Call.StaticCallee() == parse {
+					desc = fmt.Sprintf("parseRoute#%d", ex.Index)
+				}
+			}
+			if p, ok := v.(*ssa.Parameter); ok {
+				desc = "param:" + p.Name()
+			}
+			got[f.Name()] = desc
+			if sc.fn != nr {
+				before[f.Name()] = sc.before
+			} else {
+				before[f.Name()] = firstOpt == nil || !instrReachableFrom(firstOpt, st)
+			}
+		})
+	}
 	for _, name := range []string{"clientip", "redirectTrailingSlash", "ignoreTrailingSlash", "mws", "psLen", "hostSplit", "pattern"} {
 		ru.Check("NewRoute initialises "+name, w.Pos(nr.Pos()), "from "+want[name]+", before the options run", got[name] == want[name] && before[name], fmt.Sprintf("from %s, beforeOptions=%v", orDefault(got[name], "<not set>"), before[name]))
 	}
